@@ -166,6 +166,41 @@ func runC18(c *core.Ctx) {
 	}
 	c.Floor("C18/size-check-installed", 5)
 
+	// the wrapper delegates to exactly the marshalizer it was given: wrapping an already checked
+	// marshalizer keeps the inner (possibly stricter) check; unwrapping it replaces a configured limit
+	// by the outer, possibly unlimited, one
+	if ctor := anchorF(c, "marshal", "NewSizeCheckUnmarshalizer"); ctor != nil {
+		ok, why := false, "the constructor does not store a marshalizer"
+		core.Instrs(ctor, func(in ssa.Instruction) {
+			st, isSt := in.(*ssa.Store)
+			if !isSt {
+				return
+			}
+			fa, isFA := st.Addr.(*ssa.FieldAddr)
+			if !isFA || core.FieldOfAddr(fa).Name() != "Marshalizer" {
+				return
+			}
+			v := st.Val
+			for {
+				switch x := v.(type) {
+				case *ssa.ChangeInterface:
+					v = x.X
+					continue
+				case *ssa.MakeInterface:
+					v = x.X
+					continue
+				}
+				break
+			}
+			if v == ssa.Value(ctor.Params[0]) {
+				ok = true
+			} else {
+				ok, why = false, "the inner marshalizer stored is "+core.ExprKey(v)+", not the argument itself"
+			}
+		})
+		c.Check(ok, "C18/size-check-effective", "NewSizeCheckUnmarshalizer/wraps-its-argument", ctor.Pos(),
+			"the wrapper delegates to the marshalizer it was given, whatever that is", why+": a size check already installed on the shared marshalizer is discarded when it is wrapped again (e.g. with an unlimited delta), and padded encodings are accepted under new hashes")
+	}
 	// ---- S3
 	if fn := anchorM(c, "marshal", "sizeCheckUnmarshalizer", "Unmarshal"); fn != nil {
 		mustPassChecked(c, fn, "C18/size-check-effective", "sizeCheckUnmarshalizer.Unmarshal/inner", nil,
